@@ -480,8 +480,28 @@ type runner struct {
 	repRuns int
 }
 
+// math.Jn / math.Yn iterate |n| times: jn(9223372036854775807; 1) does not come back.  Such calls are
+// left out (reported in docs/C03.md as an observation; not a panic, not a wrong value).
+func hugeOrder(v any) bool {
+	if n, ok := v.(json.Number); ok {
+		v = gojq.VerifParseNumber(n)
+	}
+	switch x := v.(type) {
+	case int:
+		return x > 1000000 || x < -1000000
+	case *big.Int:
+		return true
+	case float64:
+		return math.Abs(x) > 1e6
+	}
+	return false
+}
+
 func (r *runner) call(n *native, in any, args []any) {
 	c := r.c
+	if (n.name == "jn" || n.name == "yn") && len(args) > 0 && hugeOrder(args[0]) {
+		return
+	}
 	inS := SexpVal(in)
 	argS := make([]string, len(args))
 	for i, a := range args {
@@ -525,6 +545,12 @@ func (r *runner) call(n *native, in any, args []any) {
 			o2 = outcomeCompiled(n.code, false, in, nil)
 		} else {
 			o2 = outcomeCompiled(n.code, n.iter, in, args)
+		}
+		if n.iter && strings.HasPrefix(out, "(err ") {
+			out2 := "(seq () " + out + ")"
+			if o2 == out2 {
+				o2 = out
+			}
 		}
 		if o2 != out && !(strings.Contains(out, "(f ") && canonEqualText(o2, out)) {
 			r.pathDif++
@@ -611,8 +637,11 @@ func runC03(c *Ctx) {
 	thorough := c.Tier != "quick"
 	tab := gojq.VerifNatives()
 	var names []string
+	// compiled specially; their table entry wraps a nil function that is never called
+	special := map[string]bool{"empty": true, "path": true, "env": true, "builtins": true, "input": true,
+		"modulemeta": true, "debug": true, "_match": true}
 	for name, fn := range tab {
-		if fn.HasImpl {
+		if fn.HasImpl && !special[name] {
 			names = append(names, name)
 		}
 	}
